@@ -190,7 +190,8 @@ OnWritePacket(acc, pk) ==
           \* the PUBREC goes out only with the ownership marker saved: that is what carries the cycle over a restart
           \cup If(sure /\ pk.t = "PUBREC" /\ pk.id \notin m.marks /\ m.damaged = {} /\ ~m.hostile, "C04_MarkerSavedBeforeRec")
     IN [acc EXCEPT !.m = [m EXCEPT !.conns[c] = cn1,
-                                  !.inb = IF known THEN [@ EXCEPT ![tg].acks = @ + 1, ![tg].owed = FALSE] ELSE @],
+                                  !.inb = IF known THEN [@ EXCEPT ![tg].acks = @ + 1, ![tg].owed = FALSE,
+                                                                  ![tg].recW = @ \/ (sure /\ pk.t = "PUBREC" /\ m.inb[tg].qos = 2)] ELSE @],
                    !.fails = @ \cup fails]
   ELSE IF pk.t = "PINGREQ" THEN
     \* remember how many PINGRESPs the client had read when this Ping submitted its request
@@ -281,7 +282,7 @@ OnBrokerSend(m0, e) ==
     \* a delivery (or redelivery) to the client: one cycle per identifier until PUBACK / PUBCOMP
     LET fresh == ~Has(m.inb, pk.tag)
         rec == IF fresh THEN [qos |-> pk.qos, tag |-> pk.tag, id |-> pk.id, returned |-> 0, owned |-> FALSE, cycleEnded |-> FALSE,
-                              acks |-> 0, owed |-> FALSE, done |-> FALSE, dupSkipped |-> FALSE, sends |-> 1, ownedGen |-> 0]
+                              acks |-> 0, recW |-> FALSE, owed |-> FALSE, done |-> FALSE, dupSkipped |-> FALSE, sends |-> 1, ownedGen |-> 0]
                ELSE [m.inb[pk.tag] EXCEPT !.sends = @ + 1]
         \* an identifier reused although a retransmission of its previous cycle may still be in flight:
         \* acknowledgements for it cannot be attributed to a cycle any more
@@ -463,7 +464,7 @@ OnRet(m, e) ==
         again == got /\ id # 0 /\ m.inb[id].qos = 2 /\ m.inb[id].returned >= 1 /\ ~m.inb[id].cycleEnded
                  /\ (m.inb[id].id \in m.marks \/ (m.inb[id].owned /\ m.inb[id].ownedGen = m.gen)
                      \* ... and once the client has written the PUBREC of this cycle (it does so only with the marker saved)
-                     \/ (m.inb[id].acks > 0 /\ m.damaged = {} /\ ~m.faulty))
+                     \/ (m.inb[id].recW /\ m.damaged = {} /\ ~m.faulty))
         m1 == [m0 EXCEPT !.retSeq = IF m.frame /\ e.got THEN Append(@, <<e.len, e.sum>>) ELSE @,
                          !.bigPending = IF m.frame /\ "big" \in cls THEN e.bigsize ELSE @,
                          !.rsClosed = @ \/ isClosed,
@@ -593,7 +594,12 @@ ObsStep(m, e) ==
     [] e.e = "damage" -> OnDamage(m, e)
     [] e.e = "epilogue" -> R([m EXCEPT !.phase = "epi", !.diverged = e.diverged, !.closedEarly = m.closeCalled], {})
     [] e.e = "stuck" -> OnStuck(m, e)
-    [] e.e = "undrained" -> R(m, If(~m.closedEarly, "C01_Drained"))
+    \* the healed epilogue ended with transfers still pending: for one at the PUBREL stage that means the PUBREL was not
+    \* retransmitted until its PUBCOMP arrived
+    [] e.e = "undrained" -> R(m, If(~m.closedEarly, "C01_Drained")
+                               \cup If(~m.closedEarly /\ m.damaged = {} /\ ~m.hostile
+                                      /\ (\E t \in DOMAIN m.msgs : m.msgs[t].level = 2 /\ m.msgs[t].relSaved /\ ~m.msgs[t].deleted),
+                                      "C03_RelUntilComp"))
     [] e.e = "panic" -> R(m, {"C13_NoPanic"})
     [] e.e = "nodeadline" -> R(m, {"C13_BoundedWait"})
     [] e.e = "harness-panic" -> R(m, {"Harness_Panic"})
